@@ -78,6 +78,11 @@ func Gen(seed uint64, profile string) *Scenario {
 		}
 		sc.PipeCap = simkit.Pick(r, []int{1, 64, 512, 4096, 65536})
 		tasks = r.Weighted([]int{3, 1}) + 1
+	case "errors":
+		k.errCases = true
+		k.maxRegs = r.Range(1, 3)
+		tasks = r.Weighted([]int{2, 2, 1}) + 1
+		k.diags = r.Chance(1, 3)
 	case "faultbase":
 		k.diags = true
 		tasks = r.Weighted([]int{2, 2, 1}) + 1
@@ -175,6 +180,21 @@ func genWorld(r *simkit.RNG, sc *Scenario, k *gknobs) {
 				p.Files = append(p.Files, PFile{Path: pa, Kind: "file", Body: fmt.Sprintf("X%d-%s;", i+1, pa), Mode: mode})
 			}
 		}
+		if r.Chance(1, 4) {
+			// content the built-in rules speak about
+			for _, d := range []string{".terraform", ".terraform/modules", ".git"} {
+				if !hasPath(p.Files, d) {
+					p.Files = append(p.Files, PFile{Path: d, Kind: "dir", Mode: 0o755})
+				}
+			}
+			p.Files = append(p.Files, PFile{Path: ".terraform/modules/m.tf", Kind: "file", Body: fmt.Sprintf("TM%d;", i+1), Mode: 0o644})
+			p.Files = append(p.Files, PFile{Path: ".terraform/environment", Kind: "file", Body: "default", Mode: 0o644})
+			p.Files = append(p.Files, PFile{Path: ".git/config", Kind: "file", Body: "[core]", Mode: 0o644})
+			if r.Chance(1, 2) {
+				s := "!.terraform/environment\n"
+				p.Rules = &s
+			}
+		}
 		if r.Chance(1, 4) && !hasPath(p.Files, "emptydir") {
 			p.Files = append(p.Files, PFile{Path: "emptydir", Kind: "dir", Mode: 0o755})
 		}
@@ -190,6 +210,9 @@ func genWorld(r *simkit.RNG, sc *Scenario, k *gknobs) {
 		}
 		if k.rules && r.Chance(2, 3) {
 			s := genPkgRules(r, &p)
+			if p.Rules != nil {
+				s = *p.Rules + s
+			}
 			p.Rules = &s
 		}
 		// module analyses
@@ -204,6 +227,9 @@ func genWorld(r *simkit.RNG, sc *Scenario, k *gknobs) {
 					nd := r.Range(1, 2)
 					for d := 0; d < nd; d++ {
 						dg := Diag{ID: fmt.Sprintf("diag-%d-%s-%s-%d", i+1, l, f, d), Sev: "W"}
+						if k.errCases && r.Chance(1, 6) {
+							dg.Sev = "E"
+						}
 						switch r.Intn(4) {
 						case 0:
 							dg.File = join(l, "main.tf")
@@ -420,6 +446,8 @@ func addHostile(r *simkit.RNG, p *Pkg, i, np int) {
 		{Path: "h-into-ign", Kind: "link", Target: "ign/keep.txt"},
 		{Path: "h-tmpname", Kind: "link", Target: "../.tmp-guess/main.tf"},
 		{Path: "h-sibling", Kind: "link", Target: "../SIBLING/main.tf"},
+		{Path: "h-sibling-pkg", Kind: "link", Target: "../@SIBLINGPKG@/main.tf"},
+		{Path: "h-sibling-pkg", Kind: "link", Target: "../@SIBLINGPKG@"},
 	}
 	n := r.Range(1, 3)
 	if r.Chance(1, 3) {
